@@ -49,10 +49,13 @@ def IsRoot (e f : Nat) : Prop := e < N.h.length ∧ N.spf e < f ∧ f ≤ N.fr e
 noncomputable def causedWeight (e f : Nat) (P : Nat → Prop) : Nat :=
   N.weightOf (fun u => ∃ r, N.IsRoot r f ∧ N.creator r = u ∧ N.FC e r ∧ P r)
 
-/-- C04: the frames that may be claimed by `e` -/
+/-- C04: the frames that may be claimed by `e`. The quorum is counted over the roots *other than
+    `e` itself* (as `quorumOn` of the executable reference does, `r != i`): when the frame of an event
+    is checked the event is not yet a root. The difference only shows when one validator alone holds
+    a quorum (then `FC e e`). -/
 def Allowed (e f : Nat) : Prop :=
   if (N.h.ev e).seq ≤ 1 then f = 1
-  else N.spf e ≤ f ∧ ∀ g, N.spf e ≤ g → g < f → N.quorum ≤ N.causedWeight e g (fun _ => True)
+  else N.spf e ≤ f ∧ ∀ g, N.spf e ≤ g → g < f → N.quorum ≤ N.causedWeight e g (fun r => r ≠ e)
 
 def FramesAccepted : Prop := ∀ e, e < N.h.length → N.Allowed e (N.fr e)
 
@@ -83,7 +86,7 @@ def Forker (v : Nat) : Prop :=
     (N.h.ev x).seq = (N.h.ev y).seq
 def BFT : Prop := 3 * N.weightOf N.Forker < N.total
 
-/-! ### the lemma chain (statements; proofs in `Proofs/ElectionGraph*.lean`) -/
+/-! ### the lemma chain (statements; proofs in `Proofs/ElectionGraph.lean`, `ElectionL2/L4/L6.lean`) -/
 
 /-- L1 (quorum arithmetic as in C11): two quorums share a never-forking validator -/
 def L1 : Prop := N.BFT → ∀ P Q : Nat → Prop, N.quorum ≤ N.weightOf P → N.quorum ≤ N.weightOf Q →
@@ -104,8 +107,10 @@ def L4 : Prop := Valid N.nVals N.h → N.FramesAccepted → N.BFT →
 def AtroposUnique : Prop := Valid N.nVals N.h → N.FramesAccepted → N.BFT →
   ∀ f a a', N.IsAtropos f a → N.IsAtropos f a' → a = a'
 
-/-- L6 (not proved): not every subject is decided "no" -/
-def L6 : Prop := Valid N.nVals N.h → N.FramesAccepted → N.BFT → ∀ f, ¬ ∀ v, v < N.nVals → N.DecidedNo f v
+/-- L6: not every subject is decided "no" (proved in `Proofs/ElectionL6.lean`). Frames start at 1:
+    for `f = 0` there are no roots to vote for, every round-1 vote is "no", and any root of frame 2
+    decides every subject "no" — hence `1 ≤ f` (the Orderer only ever decides frames ≥ 1). -/
+def L6 : Prop := Valid N.nVals N.h → N.FramesAccepted → N.BFT → ∀ f, 1 ≤ f → ¬ ∀ v, v < N.nVals → N.DecidedNo f v
 
 end Net
 end ElectionRules
